@@ -18,11 +18,11 @@
    [true] = the code after /verif/fixes/C09-lexer-non-ascii.patch (restore_char sees all
    continuation bytes; a character whose first byte was consumed is consumed completely). *)
 From Coq Require Import List NArith ZArith Bool Arith.
-From GV Require Import Base.Utf8.
+From GV Require Import Base.Utf8N.
 Import ListNotations.
 Local Open Scope N_scope.
 
-Inductive panic_site := PRestoreChar | PSlice.
+Inductive panic_site := PRestoreChar | PSlice | PIndex | PInvalidEscape.
 
 Inductive res (A : Type) : Type :=
 | Ok (a : A)
@@ -275,6 +275,26 @@ Definition escape_code (fx : bool) (start : nat) (s : st) : res (pending_char * 
     end
   | None => (* eof_recover :403 *)
     Ok (if fx then inr 0%N else inl 0%N, push_err (pos s) (pos s) EUnexpectedEof s)
+  end.
+
+(* token.rs:212 unescape_string_literal, applied by the grammar to every escaped string token
+   (StringLiteral::unescape :204).  `s.as_bytes()[i + 1]` panics on a trailing backslash,
+   `panic!("Invalid escape")` on any other escape character.  Fixed tree
+   (C09-unescape-invalid-escape.patch): both are copied unchanged. *)
+Fixpoint unescape (fx : bool) (s : list byte) : res (list byte) :=
+  match s with
+  | [] => Ok []
+  | b :: t =>
+    if b =? 92 then
+      match t with
+      | [] => if fx then Ok [b] else Panic PIndex
+      | e :: t' =>
+        match simple_escape e with
+        | Some v => do r <- unescape fx t'; Ok (v :: r)
+        | None => if fx then (do r <- unescape fx t; Ok (b :: r)) else Panic PInvalidEscape
+        end
+      end
+    else do r <- unescape fx t; Ok (b :: r)
   end.
 
 Definition is_quote_or_backslash (b : byte) : bool := (b =? 34) || (b =? 92).
